@@ -147,7 +147,7 @@ Qed.
 (* ---------- size bound ---------- *)
 Lemma entry_size_le_71 e : wf_entry e -> size e <= 71 + nlen (e_cmd e).
 Proof.
-  intros (_ & _ & Hty & _ & _ & _ & _ & _ & Hcl). unfold size.
+  intros [(_ & _ & Hty & _ & _ & _ & _ & _ & Hcl) _]. unfold size.
   pose proof (size64_le (e_term e)). pose proof (size64_le (e_index e)).
   pose proof (size64_le (e_key e)). pose proof (size64_le (e_client e)).
   pose proof (size64_le (e_series e)). pose proof (size64_le (e_responded e)).
